@@ -67,6 +67,14 @@ def gen_cases(ctx):
                 if tf == "none" and isinstance(tr, float) and abs(tr * 2 - round(tr * 2)) < 1e-9 and tc is None:
                     for tie in (1, 2, 3):
                         yield {"tc": tc, "tr": tr, "traffic": tf, "progress": [], "raise_at": None, "tie": tie}
+    # 1b. deadlines off the poll grid
+    for Tx in (0.7, 1.3):
+        gx = sorted({0.0, 0.2, 0.45, 0.5, 0.55, Tx - 0.1, Tx - 0.01, Tx, Tx + 0.01, Tx + 0.1, round((Tx + (int(Tx / 0.5) + 1) * 0.5) / 2, 3),
+                     (int(Tx / 0.5) + 1) * 0.5})
+        for tc in [None, "pre"] + gx:
+            for tr in [None] + gx:
+                for tf in ("none", "flood"):
+                    yield {"tc": tc, "tr": tr, "traffic": tf, "progress": [], "raise_at": None, "T": Tx}
     # 2. progress streams
     prog_kinds = ["right", "foreign", "right_missing", "right_total_msg", "foreign_int", "right_null_params"]
     for tr in (None, 0.3, 0.8, 1.0, T - 0.01):
@@ -90,11 +98,11 @@ def gen_cases(ctx):
         yield {"tc": tc, "tr": 1.0, "traffic": "none", "progress": [], "raise_at": None, "cb": True}
 
 
-def _traffic_times(kind: str) -> List[float]:
+def _traffic_times(kind: str, T: float = T) -> List[float]:
     if kind == "none":
         return []
     if kind == "burst":
-        return [0.05] * 5 + [0.48] * 5 + [1.0] * 5 + [1.97] * 5
+        return [0.05] * 5 + [0.48] * 5 + [1.0] * 5 + [round(T - 0.03, 3)] * 5
     # flood every 10 ms over the whole life of the request (+ a little)
     return [round(0.005 + 0.01 * i, 3) for i in range(int((T + 0.2) / 0.01))]
 
@@ -105,6 +113,7 @@ def exec_case(ctx, case: Dict[str, Any]) -> None:
 
     use_cb = bool(case.get("cb") or case["progress"])
     tc, tr = case["tc"], case["tr"]
+    T = case.get("T", 2.0)   # shadows the module default: deadlines that do not fall on a poll boundary
 
     async def main():
         pipe = Pipe(buffer=100_000)
@@ -130,7 +139,7 @@ def exec_case(ctx, case: Dict[str, Any]) -> None:
                 ptoken = first.params["_meta"].get("progressToken")
             obs["ptoken"] = ptoken
             events = []
-            for t in _traffic_times(case["traffic"]):
+            for t in _traffic_times(case["traffic"], T):
                 events.append((t, 0, {"jsonrpc": "2.0", "method": "notifications/message",
                                       "params": {"level": "debug", "data": "noise"}}))
             for t, kind, i in case["progress"]:
